@@ -330,6 +330,138 @@ class dot_bracket:
                      f" and result[3 * c + 2] == piece(self, self.bpseq_value.dot_bracket.structure, c)"]}]
 
 
+# ------------------------------------------------------------------------------------------------ strands_sequences (body)
+# Ghost vocabulary of the proof (every quantified variable is an array index):
+#   FLAT  the concatenation of the strands' piece lists, in order (list of str)         OFF[t]  where strand t starts in FLAT
+#   POS[k] the position in FLAT of the k-th nucleotide                                    ST[k]   the strand holding it
+#   KOF[p] the nucleotide whose name stands at position p of FLAT, -1 at a placeholder
+@spec
+def flat_offsets(R, OFF):
+    """OFF = prefix sums of the strands' lengths"""
+    return (len(R) >= 1 and len(OFF) == len(R) and OFF[0] == 0
+            and forall(lambda t: implies(0 <= t and t < len(R) - 1, OFF[t + 1] == OFF[t] + len(R[t][1]))))
+
+
+@spec
+def flat_total(R, OFF, FLAT):
+    return len(FLAT) == OFF[len(R) - 1] + len(R[len(R) - 1][1])
+
+
+@spec
+def flat_bounded(R, OFF, FLAT):
+    """every strand lies inside FLAT (a consequence of the prefix sums, kept as its own clause: it needs an induction)"""
+    return forall(lambda t: implies(0 <= t and t < len(R), 0 <= OFF[t] and OFF[t] + len(R[t][1]) <= len(FLAT)))
+
+
+@spec
+def flat_nonempty(R):
+    """no strand is empty"""
+    return forall(lambda t: implies(0 <= t and t < len(R), len(R[t][1]) >= 1))
+
+
+@spec
+def flat_pieces(R, OFF, FLAT):
+    """FLAT = the strands' pieces one after the other"""
+    return forall(lambda t, j: implies(0 <= t and t < len(R) and 0 <= j and j < len(R[t][1]), R[t][1][j] == FLAT[OFF[t] + j]))
+
+
+@spec
+def strands_flat(R, OFF, FLAT):
+    return flat_offsets(R, OFF) and flat_total(R, OFF, FLAT) and flat_bounded(R, OFF, FLAT) and flat_nonempty(R) and flat_pieces(R, OFF, FLAT)
+
+
+@spec
+def strands_placed(NU, i, R, OFF, POS, ST):
+    """nucleotide k < i lies in strand ST[k], whose chain is its chain, at flat position POS[k]"""
+    return (len(POS) == i and len(ST) == i
+            and forall(lambda k: implies(0 <= k and k < i, 0 <= ST[k] and ST[k] < len(R) and R[ST[k]][0] == NU[k].chain
+                                         and OFF[ST[k]] <= POS[k] and POS[k] < OFF[ST[k]] + len(R[ST[k]][1]))))
+
+
+@spec
+def strands_names(NU, i, FLAT, POS, KOF):
+    """position POS[k] of FLAT holds the one-letter name of nucleotide k; every other position holds the placeholder '?'"""
+    return (len(KOF) == len(FLAT)
+            and forall(lambda k: implies(0 <= k and k < i, 0 <= POS[k] and POS[k] < len(FLAT)
+                                         and FLAT[POS[k]] == NU[k].one_letter_name and KOF[POS[k]] == k))
+            and forall(lambda p: implies(0 <= p and p < len(FLAT) and KOF[p] < 0, FLAT[p] == "?"))
+            and forall(lambda p: implies(0 <= p and p < len(FLAT) and KOF[p] >= 0, KOF[p] < i and POS[KOF[p]] == p)))
+
+
+@spec
+def strands_spacing(m, NU, i, POS):
+    """the BPSEQ numbering rule (nucs_spacing of __generate_bpseq, 0-based): the first nucleotide stands at 0, consecutive
+    nucleotides are separated by exactly gapcount placeholders"""
+    return (POS[0] == 0
+            and forall(lambda a, b: implies(0 <= a and b == a + 1 and b < i, POS[b] == POS[a] + 1 + gapcount(m, NU[a], NU[b])),
+                       pats=[["ident(NU[a])", "ident(NU[b])"]]))
+
+
+@spec
+def strands_runs(NU, i, ST):
+    """a new strand starts exactly where the chain changes between consecutive nucleotides"""
+    return (ST[0] == 0
+            and forall(lambda a, b: implies(0 <= a and b == a + 1 and b < i, ST[b] == ST[a] + ite(NU[b].chain != NU[a].chain, 1, 0)),
+                       pats=[["ident(NU[a])", "ident(NU[b])"]]))
+
+
+class strands_body:
+    """PREFIX contract (up to the final comprehension that joins every strand's pieces): the body of strands_sequences.
+    `result` holds one (chain, list of pieces) entry per maximal run of nucleotides of one chain, in file order; the pieces are
+    the one-letter names with exactly gapcount '?' placeholders between consecutive nucleotides - the numbering rule of
+    __generate_bpseq - so the pieces of all strands, one after the other, are the sequence column of the BPSEQ."""
+    target = "Mapping2D3D.strands_sequences"
+    params = {"self": "Mapping2D3D"}
+    requires = []
+    stop_before = "return [(chain, ''.join(sequence))"
+    ensures = []
+    stop_ensures = [f"filtered(nucleotides, SRC, {_R})",
+                    "strands_flat(STRANDS, OFF, FLAT)",
+                    "strands_spacing(self, nucleotides, len(nucleotides), POS) and len(FLAT) == POS[len(nucleotides) - 1] + 1",
+                    "strands_names(nucleotides, len(nucleotides), FLAT, POS, KOF)",
+                    "strands_placed(nucleotides, len(nucleotides), STRANDS, OFF, POS, ST)",
+                    "strands_runs(nucleotides, len(nucleotides), ST) and len(STRANDS) == ST[len(nucleotides) - 1] + 1"]
+    stop_ensures_labels = {0: "nucleotides-in-file-order", 1: "offsets-are-prefix-sums-of-strand-lengths",
+                           2: "bpseq-numbering-rule-and-total-length", 3: "names-and-placeholders-at-their-positions",
+                           4: "each-nucleotide-in-the-strand-of-its-chain", 5: "one-strand-per-run-of-one-chain"}
+    raises = []
+    modifies = []
+    locals = {"result": "list[tuple[str,list[str]]]"}
+    _INV = ["flat_offsets(result, OFF)", "flat_total(result, OFF, FLAT)", "flat_bounded(result, OFF, FLAT)", "flat_nonempty(result)", "flat_pieces(result, OFF, FLAT)", "strands_placed(nucleotides, i, result, OFF, POS, ST)",
+            "strands_names(nucleotides, i, FLAT, POS, KOF)", "strands_spacing(self, nucleotides, i, POS)", "strands_runs(nucleotides, i, ST)",
+            "ST[i - 1] == len(result) - 1"]
+    _LAB = {0: "offsets-are-prefix-sums", 1: "flat-length", 2: "strands-inside-flat", 3: "no-empty-strand", 4: "pieces-in-order", 5: "nucleotide-in-its-strand",
+            6: "names-and-placeholders", 7: "numbering-rule", 8: "strand-per-chain-run", 9: "last-strand-is-current", 10: "total-length"}
+    loops = {
+        # for i in range(1, len(nucleotides))
+        0: {"touches": _NO_ROW_WRITES, "labels": _LAB, "inv": _INV + ["len(FLAT) == POS[i - 1] + 1"]},
+        # for k in range(residue.number - previous.number - 1)
+        1: {"touches": _NO_ROW_WRITES, "labels": _LAB, "inv": _INV + ["len(FLAT) == POS[i - 1] + 1 + k"]},
+    }
+    ghost = [
+        {"when": "after", "at": "nucleotides = list(filter(", "label": "filter",
+         "do": ["let SRC = last_filter_index()", f"assert filtered(nucleotides, SRC, {_R})"]},
+        {"when": "after", "at": "result = [(nucleotides[0].chain", "label": "first-nucleotide",
+         "do": ["let FLAT = snoc(empty('list[str]'), nucleotides[0].one_letter_name)", "let KOF = snoc(empty('list[int]'), 0)",
+                "let OFF = snoc(empty('list[int]'), 0)", "let POS = snoc(empty('list[int]'), 0)", "let ST = snoc(empty('list[int]'), 0)"]},
+        {"when": "after", "at": "result.append((residue.chain, [residue.one_letter_name]))", "label": "new-strand",
+         "do": ["let OFF = snoc(OFF, len(FLAT))", "let POS = snoc(POS, len(FLAT))", "let KOF = snoc(KOF, i)",
+                "let FLAT = snoc(FLAT, residue.one_letter_name)", "let ST = snoc(ST, len(result) - 1)",
+                "assert forall(lambda t, j: implies(0 <= t and t < len(result) - 1 and 0 <= j and j < len(result[t][1]), result[t][1][j] == FLAT[OFF[t] + j]))",
+                "assert forall(lambda j: implies(0 <= j and j < len(result[len(result) - 1][1]), result[len(result) - 1][1][j] == FLAT[OFF[len(result) - 1] + j]))"]},
+        {"when": "after", "at": "result[-1][1].append('?')", "label": "placeholder",
+         "do": ["let FLAT = snoc(FLAT, '?')", "let KOF = snoc(KOF, 0 - 1)",
+                "assert forall(lambda t, j: implies(0 <= t and t < len(result) - 1 and 0 <= j and j < len(result[t][1]), result[t][1][j] == FLAT[OFF[t] + j]))",
+                "assert forall(lambda j: implies(0 <= j and j < len(result[len(result) - 1][1]), result[len(result) - 1][1][j] == FLAT[OFF[len(result) - 1] + j]))"]},
+        {"when": "after", "at": "result[-1][1].append(residue.one_letter_name)", "label": "same-strand",
+         "do": ["let POS = snoc(POS, len(FLAT))", "let KOF = snoc(KOF, i)", "let FLAT = snoc(FLAT, residue.one_letter_name)",
+                "let ST = snoc(ST, len(result) - 1)",
+                "assert forall(lambda t, j: implies(0 <= t and t < len(result) - 1 and 0 <= j and j < len(result[t][1]), result[t][1][j] == FLAT[OFF[t] + j]))",
+                "assert forall(lambda j: implies(0 <= j and j < len(result[len(result) - 1][1]), result[len(result) - 1][1][j] == FLAT[OFF[len(result) - 1] + j]))"]},
+        {"when": "before", "at": "return [(chain, ''.join(sequence))", "label": "strands", "do": ["let STRANDS = result"]},
+    ]
+
+
 CONTRACTS = {
     "Residue3D.is_connected": _M.is_connected,
     "Mapping2D3D.__generate_bpseq": _M.generate_bpseq,
@@ -341,4 +473,5 @@ CONTRACTS = {
     "Mapping2D3D.bpseq": bpseq_callee,
     "Mapping2D3D.bpseq@body": bpseq_body,
     "Mapping2D3D.dot_bracket": dot_bracket,
+    "Mapping2D3D.strands_sequences@body": strands_body,
 }
